@@ -674,6 +674,7 @@ func TestVerifC01(t *testing.T) {
 	c01SpaceB2(c, mc.Pick(c, 40, 40))
 	c01Values(c, mc.Pick(c, 64, 1024), mc.Pick(c, 20000, 200000))
 	c01Keys(c, mc.Pick(c, 4, 5))
+	c01Long(c)
 	if code := c.Finish(); code != 0 {
 		os.Exit(code)
 	}
